@@ -2,18 +2,18 @@ import NutilsVerif.Model.C19
 /-!
 # C19 — source ASTs of the documented grammar, their printer and their direct elaboration  (no Mathlib)
 
-`Src` is the abstract syntax of the *core* grammar: sums (with optional leading minus, `+` / `-`) of
-products (juxtaposition) of items, where an item is an unsigned integer, a variable with indices (letters
-and single numerals) or a parenthesised / jump / mean expression.  Lists are encoded in the tree
-(`pnil` / `pcons` for the factors after the first, `tnil` / `tcons` for the terms after the first), so that
-plain structural induction applies.
+`Src` is the abstract syntax of the grammar *without function calls and decimal numbers*: sums (optional leading
+minus, `+` / `-`) of fractions ` / ` of products (juxtaposition) of powers `^` (signed integer or parenthesised
+exponent) of items; an item is an unsigned integer, a variable with indices (letters and single numerals) or a
+parenthesised / jump / mean expression.  Lists are encoded in the tree (`pnil` / `pcons` for the factors after the
+first, `tnil` / `tcons` for the terms after the first), so that plain structural induction applies.
 
-* `print : Src → List Char` is the canonical printing (single blanks, ` + `, ` - `, no padding);
-* `elab` elaborates an AST **without looking at any string**: it calls the very same bookkeeping functions
-  as the parser (`genIndicesGo`, `trace`, `alignGo`) in the order the grammar dictates;
-* `Props/C19.lean` proves `parse_print_partial`: for every well-formed AST `t`,
-  `(parse Γ (print t)).toOption = elabExpr Γ t` — the string scanning of the real parser recovers exactly the
-  grammatical structure, for all ASTs of the core grammar and all contexts.
+* `print : Src → List Char` is the canonical printing (single blanks, ` + `, ` - `, ` / `, no padding);
+* `elabExpr` elaborates a tree **without looking at any string**: it calls the very same bookkeeping functions
+  as the parser (`genIndicesGo`, `trace`, `alignGo`, `mergeSummed`, `verifyIndicesSummed`) in the order the grammar
+  dictates;
+* `Props/C19.lean` proves `parse_print_partial`: for every well-formed tree `t`,
+  `toOpt (parse Γ (print t)) = elabExpr Γ t`, for all contexts.
 -/
 namespace NutilsVerif.C19
 
@@ -23,9 +23,12 @@ inductive Src where
   | paren (e : Src)                            -- `(e)`
   | jump (e : Src)                             -- `[e]`
   | mean (e : Src)                             -- `{e}`
+  | powInt (b : Src) (neg : Bool) (ds : List Nat)   -- `b^ds`, `b^-ds`
+  | powExpr (b : Src) (e : Src)                -- `b^(e)`
   | prod (f : Src) (tail : Src)                -- a term: first factor and the chain of the others
   | pnil
   | pcons (f : Src) (tail : Src)               -- ` f` followed by the rest
+  | frac (n d : Src)                           -- `n / d`
   | sum (neg : Bool) (first : Src) (tail : Src) -- an expression: optional `-`, first term, chain of the others
   | tnil
   | tcons (minus : Bool) (t : Src) (tail : Src) -- ` + t` / ` - t` followed by the rest
@@ -39,9 +42,12 @@ def Src.print : Src → List Char
   | .paren e => '(' :: e.print ++ [')']
   | .jump e => '[' :: e.print ++ [']']
   | .mean e => '{' :: e.print ++ ['}']
+  | .powInt b neg ds => b.print ++ '^' :: ((if neg then ['-'] else []) ++ ds.map digitChar)
+  | .powExpr b e => b.print ++ '^' :: ('(' :: e.print ++ [')'])
   | .prod f tail => f.print ++ tail.print
   | .pnil => []
   | .pcons f tail => ' ' :: f.print ++ tail.print
+  | .frac n d => n.print ++ ([' ', '/', ' '] ++ d.print)
   | .sum neg first tail => (if neg then ['-'] else []) ++ first.print ++ tail.print
   | .tnil => []
   | .tcons minus t tail => [' ', if minus then '-' else '+', ' '] ++ t.print ++ tail.print
@@ -59,22 +65,33 @@ def nameOK : Name → Bool
 
 def idxChar (c : Char) : Bool := isDigit c || ('a' ≤ c && c ≤ 'z')
 
+def digitsOK (ds : List Nat) : Bool := !ds.isEmpty && ds.all (· < 10)
+
 inductive Kind where
-  | item | ptail | term | ttail | expr
+  | item | power | ptail | term | frac | ttail | expr
 deriving Repr, DecidableEq
 
 def Src.ok : Kind → Src → Bool
-  | .item, .num ds => !ds.isEmpty && ds.all (· < 10)
+  | .item, .num ds => digitsOK ds
   | .item, .var name idx => nameOK name && idx.all idxChar
   | .item, .paren e => e.ok .expr
   | .item, .jump e => e.ok .expr
   | .item, .mean e => e.ok .expr
+  | .power, .num ds => digitsOK ds
+  | .power, .var name idx => nameOK name && idx.all idxChar
+  | .power, .paren e => e.ok .expr
+  | .power, .jump e => e.ok .expr
+  | .power, .mean e => e.ok .expr
+  | .power, .powInt b _ ds => b.ok .item && digitsOK ds
+  | .power, .powExpr b e => b.ok .item && e.ok .expr
   | .ptail, .pnil => true
-  | .ptail, .pcons f tail => f.ok .item && tail.ok .ptail
-  | .term, .prod f tail => f.ok .item && tail.ok .ptail
+  | .ptail, .pcons f tail => f.ok .power && tail.ok .ptail
+  | .term, .prod f tail => f.ok .power && tail.ok .ptail
+  | .frac, .prod f tail => f.ok .power && tail.ok .ptail
+  | .frac, .frac n d => n.ok .term && d.ok .term
   | .ttail, .tnil => true
-  | .ttail, .tcons _ t tail => t.ok .term && tail.ok .ttail
-  | .expr, .sum _ first tail => first.ok .term && tail.ok .ttail
+  | .ttail, .tcons _ t tail => t.ok .frac && tail.ok .ttail
+  | .expr, .sum _ first tail => first.ok .frac && tail.ok .ttail
   | _, _ => false
 
 /-! ## direct elaboration -/
@@ -85,9 +102,22 @@ def toOpt {α : Type} : P α → Option α
   | .ok a => some a
   | .error _ => none
 
+/-- `parse_term` on the parsed factors: one factor is returned as is, several are multiplied and traced -/
+def termCombine (r : Res) (rs : List Res) : Option Res :=
+  match r :: rs with
+  | [r] => some r
+  | parts => toOpt (trace noSub (.mul (parts.map (·.ops))) (parts.map (·.shape)).flatten (parts.map (·.indices)).flatten (parts.map (·.summed)))
+
+/-- the tail of `parse_power` / `parse_fraction`: the exponent / denominator must be a scalar, summed indices merge -/
+def scalarCombine (mk : Ops → Ops → Ops) (base ex : Res) : Option Res :=
+  if !ex.indices.isEmpty then none
+  else (toOpt (mergeSummed noSub [base.summed, ex.summed])).bind fun summed =>
+    (toOpt (verifyIndicesSummed noSub base.indices summed)).bind fun _ =>
+      some ⟨mk base.ops ex.ops, base.shape, base.indices, summed⟩
+
 mutual
-/-- an item, as `parse_item` treats it -/
-def elabItem (Γ : Ctx) : Src → Bool → Option Res
+/-- an item or a power, as `parse_power` / `parse_item` treat it -/
+def elabPower (Γ : Ctx) : Src → Bool → Option Res
   | .num ds, allowNumber => if allowNumber then some ⟨.int (digitsVal ds), [], [], []⟩ else none
   | .var name idx, _ =>
     match Γ.lookupVar name with
@@ -98,29 +128,35 @@ def elabItem (Γ : Ctx) : Src → Bool → Option Res
   | .paren e, _ => (elabExpr Γ e).map fun r => { r with ops := .scope r.ops }
   | .jump e, _ => (elabExpr Γ e).map fun r => { r with ops := .jump r.ops }
   | .mean e, _ => (elabExpr Γ e).map fun r => { r with ops := .mean r.ops }
+  | .powInt b neg ds, a =>
+    (elabPower Γ b a).bind fun base =>
+      scalarCombine .pow base ⟨.int (if neg then - (digitsVal ds : Int) else (digitsVal ds : Int)), [], [], []⟩
+  | .powExpr b e, a =>
+    (elabPower Γ b a).bind fun base => (elabExpr Γ e).bind fun ex => scalarCombine .pow base ex
   | _, _ => none
 /-- the factors after the first (numbers are not allowed there) -/
 def elabFactors (Γ : Ctx) : Src → Option (List Res)
   | .pnil => some []
-  | .pcons f tail => (elabItem Γ f false).bind fun r => (elabFactors Γ tail).bind fun rs => some (r :: rs)
+  | .pcons f tail => (elabPower Γ f false).bind fun r => (elabFactors Γ tail).bind fun rs => some (r :: rs)
   | _ => none
-/-- a term, as `parse_term` treats it: one factor is returned as is, several are multiplied and traced -/
+/-- a term, as `parse_term` treats it -/
 def elabTerm (Γ : Ctx) : Src → Option Res
-  | .prod f tail =>
-    (elabItem Γ f true).bind fun r => (elabFactors Γ tail).bind fun rs =>
-      match r :: rs with
-      | [r] => some r
-      | parts => toOpt (trace noSub (.mul (parts.map (·.ops))) (parts.map (·.shape)).flatten (parts.map (·.indices)).flatten (parts.map (·.summed)))
+  | .prod f tail => (elabPower Γ f true).bind fun r => (elabFactors Γ tail).bind fun rs => termCombine r rs
+  | _ => none
+/-- a fraction (or a plain term), as `parse_fraction` treats it -/
+def elabFrac (Γ : Ctx) : Src → Option Res
+  | .prod f tail => (elabPower Γ f true).bind fun r => (elabFactors Γ tail).bind fun rs => termCombine r rs
+  | .frac n d => (elabTerm Γ n).bind fun num => (elabTerm Γ d).bind fun den => scalarCombine .div num den
   | _ => none
 /-- the terms after the first with their signs -/
 def elabTail (Γ : Ctx) : Src → Option (List (Bool × Sub × Res))
   | .tnil => some []
-  | .tcons minus t tail => (elabTerm Γ t).bind fun r => (elabTail Γ tail).bind fun rs => some ((minus, noSub, r) :: rs)
+  | .tcons minus t tail => (elabFrac Γ t).bind fun r => (elabTail Γ tail).bind fun rs => some ((minus, noSub, r) :: rs)
   | _ => none
 /-- an expression, as `parse_expression` treats it -/
 def elabExpr (Γ : Ctx) : Src → Option Res
   | .sum neg first tail =>
-    (elabTerm Γ first).bind fun r => (elabTail Γ tail).bind fun rest =>
+    (elabFrac Γ first).bind fun r => (elabTail Γ tail).bind fun rest =>
       if !neg && rest.isEmpty then some r
       else (toOpt (alignGo noSub r.shape r.indices rest 2 [neg] [r.ops] r.summed)).map fun a =>
         ⟨.add a.1 a.2.1, r.shape, r.indices, a.2.2⟩
